@@ -191,7 +191,7 @@ def _harness(tier, seed):
                                        rng.randint(1, fes), rng.randint(0, 1000), fes, rng.randint(1000, 10 ** 6), goal,
                                        fes if (budget_mode == "all" or (budget_mode == "mixed" and ai != 0)) else None, None)
                         rec_ = pr_.from_packing_and_end_result(er, y)
-                        if tab % 3 == 2:
+                        if tab % 3 == 0:
                             # further evaluated objectives whose value or bounds are zero / negative / non-integral (the
                             # seven bundled ones are all positive integers): one common set for the whole table
                             ob_ = dict(rec_.objectives)
@@ -254,7 +254,9 @@ def _harness(tier, seed):
                                          f"bin_bounds written {dict(ra.bin_bounds)} read {dict(rb.bin_bounds)}"))
                             break
             except Exception as ex:
-                cls = "mixed-goal" if goal_mode == "mixed" else "other"
+                # the recorded finding F11: moptipy writes the text 'None' into successN for set-ups without goal when another
+                # set-up has one, and cannot read it back.  Only that failure carries the label of the finding.
+                cls = "mixed-goal" if (goal_mode == "mixed" and "None" in repr(ex)) else "other"
                 viol.append((f"packing-statistics/raises/{cls}", info, repr(ex)))
             if len(samples) < 2:
                 samples.append(info)
